@@ -362,7 +362,7 @@ pub fn run(ctx: &mut Ctx) {
         }
     });
 
-    let cases = ctx.tier.pick(120_000u64, 2_000_000u64);
+    let cases = ctx.tier.pick(2_000_000u64, 20_000_000u64);
     ctx.pbt("c11-random", cases, 700, |t, st| {
         let case = gen_case(t);
         st.eval();
